@@ -485,9 +485,11 @@ def uses_cg(s, inv):
     return False
 
 
-def covariance_facts(s, inv, tol=1e-9):
+def covariance_facts(s, inv, tol=1e-9, adjoint=False):
     """(C, hermitian, min eigenvalue, target or None)."""
     C = mat(s)
+    if adjoint:
+        C = C.conj().T
     herm = bool(np.abs(C - C.conj().T).max(initial=0.) <= tol * max(1., np.abs(C).max(initial=0.)))
     ev = np.linalg.eigvalsh((C + C.conj().T) / 2) if C.size else np.zeros(0)
     mn = float(ev.min(initial=np.inf))
